@@ -66,6 +66,15 @@ func (x *X) newEv(s *State, ctx evalCtx) *Ev {
 func (x *X) evalClause(s *State, c *Clause, ctx evalCtx) string {
 	ev := x.newEv(s, ctx)
 	ev.where = fmt.Sprintf("%s:%d", filepathBase(c.File), c.Line)
+	defer func() {
+		if r := recover(); r != nil {
+			if _, isU := r.(unsupported); !isU {
+				// a value shape the evaluator does not expect: say which clause asked for it
+				panic(unsupported{fmt.Sprintf("contract clause %s (%s): %v", ev.where, c.Name, r)})
+			}
+			panic(r)
+		}
+	}()
 	v := ev.eval(c.Expr)
 	sc, ok := v.(Sc)
 	if !ok || sc.Sort != "Bool" {
@@ -641,7 +650,13 @@ func (ev *Ev) index(base, idx Val) Val {
 	x := ev.x
 	switch b := base.(type) {
 	case Sl:
-		return selV(x.flat(ev.cur, x.slElem(ev.cur, b)), tm(idx))
+		st := ev.cur
+		if b.ID != 0 {
+			if _, has := st.arrs[b.ID]; !has && ev.now != nil {
+				st = ev.now // a slice made after the old state was taken (a local mentioned inside old())
+			}
+		}
+		return selV(x.flat(st, x.slElem(st, b)), tm(idx))
 	case MapV:
 		if b.ID == 0 {
 			ev.errf("index into nil map")
